@@ -86,6 +86,8 @@ type pathResult struct {
 	unknowns    int
 	pcSize      int
 	sampleModel []replayVar
+	sampleChoices []int
+	hasSample   bool
 	initSkipped int
 }
 
